@@ -316,7 +316,7 @@ func (d *memDCS) rec(kind, path, call, resp string, mut bool) {
 		return
 	}
 	now := time.Now().UnixNano()
-	d.w.Record(vk.Entry{Caller: d.caller, Kind: kind, Arg: path, Raw: call, Resp: resp, TStart: now, TEnd: now, Mut: mut})
+	d.w.Record(vk.Entry{Caller: d.caller, Kind: kind, Arg: path, Raw: call, Resp: resp, TStart: now, TEnd: now, Mut: mut, G: vk.Gid()})
 }
 
 func (d *memDCS) IsConnected() bool {
@@ -498,6 +498,19 @@ func (d *memDCS) GetChildren(path string) ([]string, error) {
 }
 
 // raw access for scenario setup / monitors (not recorded)
+func (d *memDCS) rawChildren(prefix string) []string {
+	d.mu.Lock()
+	defer d.mu.Unlock()
+	var r []string
+	for k := range d.data {
+		if strings.HasPrefix(k, prefix+"/") {
+			r = append(r, strings.SplitN(strings.TrimPrefix(k, prefix+"/"), "/", 2)[0])
+		}
+	}
+	sort.Strings(r)
+	return r
+}
+
 func (d *memDCS) rawSet(path string, value any) {
 	b, _ := json.Marshal(value)
 	d.mu.Lock()
